@@ -121,7 +121,7 @@ fn single_op(property: &str, data: &[u8]) -> Option<FuzzFail> {
             let hs: Vec<usize> = leaves.iter().map(|l| st.new_leaf(&l.dims, &l.vals, false)).collect();
             let out = st.eval(&op, &hs).ok()?;
             let seed = Some(gen_vals(vseed ^ 9, out.numel(), VKind::Int));
-            judge("C02", GradCase { op, leaves, seed, uses: 1 + (p[0] as usize % 2), passes: 1, same_operand: false, detached_clone: 0 })
+            judge("C02", GradCase { op, leaves, seed, uses: 1 + (p[0] as usize % 2), passes: 1, same_operand: false, detached_clone: 0, view_of_first: None, swap_operands: false })
         }
     }
 }
